@@ -9,6 +9,9 @@ e  analytic Jacobian pieces: halo quadratic term == field accelerations; residua
 d (added)  start symmetry: the analytic start state lies in the fixed set of a reversing symmetry whose free coordinates contain the
            controls; same symmetry at both ends -> period 2*tau, different -> 4*tau
 e (added)  tolerance chain: the crossing integrator and event location are no looser than the default convergence tolerance
+
+d (round 3)  apply_correction on an orbit that already holds a state 1e-9 away: state, period and cache all updated (exact numpy allclose)
+e (round 3)  the crossing search and the operators' STM run in the configured time direction (C11.e direction rule re-filed; call-site rule)
 """
 from __future__ import annotations
 
